@@ -42,7 +42,7 @@ PROPS = {
     ),
     "C12": dict(
         level="proof",
-        specs=["specs.c12_regions"],
+        specs=["specs.c12_regions", "specs.c09_loading"],     # (c09_loading: one application of flood_fill_aplx, tagged C12 - the pairs sent are the pairs just computed)
         bounded=["bounded.c12_regions"],
         trusted=["the reading of a region word in specs/c12_regions.py::selects (bits 31:24 / 23:18 block base, 17:16 level, 15:0 sub-block select), transcribed from the SC&MP documentation"],
     ),
